@@ -257,6 +257,10 @@ class Scenario:
         nw = self.nw
         from diameter.message.commands import AccountingRequest, CreditControlRequest
         app = nw.apps[app_i]
+        dest_host = None
+        if ">" in realmkey:         # "<realm key>><k>": the request also carries Destination-Host = configured peer k
+            realmkey, k = realmkey.split(">")
+            dest_host = self.cfg["peers"][int(k)]["name"]
         realm = {"own": env.NODE_REALM, "r2": "realm2.example", "r3": "realm3.example", "foreign": "nowhere.example"}[realmkey]
         n = len(self.send_results)
         self.send_results.append([app_i, realmkey, "pending", None])
@@ -277,6 +281,8 @@ class Scenario:
             m.origin_host = nw.node.origin_host.encode()
             m.origin_realm = nw.node.realm_name.encode()
             m.destination_realm = realm.encode()
+            if dest_host is not None:
+                m.destination_host = dest_host.encode()
             try:
                 a = app.send_request(m, timeout=self.app_timeout)
                 self.send_results[n][2] = "answer"
